@@ -139,6 +139,36 @@ func (b *builder) step(tolerate ...string) {
 	}
 }
 
+// settle: producer events until two consecutive events found every contract inbox empty (the second one confirms the
+// receive blocks the first may still have inserted: unconfirmed blocks do not survive the freeze).
+func (b *builder) settle() {
+	quiet := 0
+	for i := 0; i < 16 && b.fail == ""; i++ {
+		rs, err := safeStep(b.p.P)
+		if err != nil {
+			b.fail = "producer step: " + err.Error()
+			return
+		}
+		for _, r := range rs {
+			if r.failed() || !r.Inserted {
+				b.fail = fmt.Sprintf("producer failed while settling (to %v data %x): %s insErr=%v", r.Send.ToAddress, r.Send.Data, r.describe(), r.InsErr)
+				return
+			}
+		}
+		if len(rs) == 0 {
+			quiet++
+			if quiet == 2 {
+				return
+			}
+		} else {
+			quiet = 0
+		}
+	}
+	if b.fail == "" {
+		b.fail = "inboxes do not settle"
+	}
+}
+
 func (b *builder) steps(k int) {
 	for i := 0; i < k; i++ {
 		b.step()
@@ -217,6 +247,7 @@ func buildRegime(p *pair, ri int) (*stateEnv, string) {
 		b.step()
 	}
 	b.steps(sporkDelay + 1)
+	b.settle()
 	// the plasma contract holds the genesis fusion of owner for itself (id fixed by the mock genesis)
 	b.env.IDs["plasma"] = []types.Hash{types.HexToHashPanic("117613e734b6cb0fd7b7583f5b0e863a3f0c856cd32fa36f1b60b464d068c5a6")}
 	return b.env, b.fail
@@ -362,7 +393,7 @@ func buildEntries(p *pair, env0 *stateEnv) (*stateEnv, string) {
 		add("liquidity", ls.Hash)
 		b.step()
 	}
-	b.step()
+	b.settle()
 	return env, b.fail
 }
 
